@@ -1002,7 +1002,7 @@ func mustPlan(tree *jsonv.Value) []mutate.Spec {
 		}
 		pp := append(doctree.Path{}, p...)
 		if len(p) == 3 && p[0] == "components" && p[1] == "schemas" {
-			if paramUse[p[2]] && seenKind["self-param"] < 4 {
+			if paramUse[p[2]] && seenKind["self-param"] < 14 {
 				seenKind["self-param"]++
 				for _, k := range selfKinds {
 					out = append(out, mutate.Spec{Path: pp, Kind: k})
